@@ -69,6 +69,7 @@ def applications():
     for a in TYS:
         apps.append({"id": f"not:{a}", "params": [a], "expr": "not a0", "coq": f"resolve_not T {CT[a]}"})
         apps.append({"id": f"abs:{a}", "params": [a], "expr": "abs(a0)", "coq": f'resolve_builtin T "abs" [{CT[a]}]'})
+        apps.append({"id": f"round:{a}", "params": [a], "expr": "round(a0)", "coq": f'resolve_builtin T "round" [{CT[a]}]'})
     for t, a in itertools.product(TYS, TYS):
         apps.append({"id": f"conv:{t}:{a}", "params": [a], "expr": f"{t}(a0)", "coq": f"resolve_conv T {CT[t]} {CT[a]}"})
         apps.append({"id": f"pow:{t}:{a}", "params": [t, a], "expr": "pow(a0, a1)", "coq": f'resolve_builtin T "pow" [{CT[t]}; {CT[a]}]'})
@@ -205,7 +206,7 @@ def split_top(s):
 BOUND = {"int": [0, 1, -1, 2, -2, 3, 7, -7, -8, 63, 64, H64 - 1, -H64, -H64 + 1, 3037000500, 2**53 + 1, 27021597764222979],
          "nat": [0, 1, 2, 3, 7, 63, 64, H64 - 1, H64, H64 + 2, M64 - 1, 2**53 + 1, 27021597764222979], "bool": [False, True],
          "float": [0.0, -0.0, 1.0, -1.0, 0.1, -0.1, 0.5, 2.5, -2.5, 3.0, 7.5, 1e-320, 1e308, 9007199254740992.0,
-                   1e16, 123456789.125, float("inf"), float("-inf"), float("nan")]}
+                   1e16, 123456789.125, 9.223372036854775808e18, 1.2e19, float("inf"), float("-inf"), float("nan")]}
 def py_pow(x, y):
     if isinstance(x, float) or isinstance(y, float):
         r = x ** y
@@ -244,6 +245,8 @@ def py_result(kind, op, xs):
         r = not xs[0]
     elif kind == "abs":
         r = abs(xs[0])
+    elif kind == "round":
+        r = round(xs[0])
     elif kind == "conv":
         r = {"int": int, "nat": int, "bool": bool, "float": float}[op](xs[0])
     elif kind == "pow":
@@ -260,7 +263,9 @@ def py_result(kind, op, xs):
 def search(app_id, params, tree):
     """first boundary operands (in the property's domain) on which the op tree differs from CPython"""
     parts = app_id.split(":")
-    kind = parts[0] if parts[0] in ("not", "abs", "conv", "pow", "divmod") else ("bin" if parts[0] in BIN else "un")
+    kind = parts[0] if parts[0] in ("not", "abs", "conv", "pow", "divmod", "round") else ("bin" if parts[0] in BIN else "un")
+    if kind == "round" and "float" in params:
+        return []      # round(float) returns an int in Python, a float in Guppy: not in the property's operator list
     op = parts[1] if kind == "conv" else parts[0]
     diffs = []
     for xs in itertools.product(*[BOUND[p] for p in params]):
@@ -373,19 +378,32 @@ def float_assumptions(ctx):
 
 
 def run(ctx):
-    generate(ctx)
-    info = ctx.coq_props()
+    tr_err = None
+    try:
+        generate(ctx)
+        info = ctx.coq_props()
+    except vlib.TranslatorError as e:
+        # fail-closed translator: the tie is broken.  No Coq this run (the generated table is
+        # stale); the implementation-vs-Python search below still runs on the real tree so
+        # that a concrete failing input is reported when the change is a real defect.
+        tr_err = str(e)
+        info = {"ok": False, "obligations": 1, "discharged": 0, "axioms": [], "log": tr_err, "failed": "translator",
+                "theorems": [], "closed": 0}
     apps = applications()
     r = vlib.rng(ctx.seed, "C04")
     # ---- model trees (needs GenNumTable/ModelNum/Proofs .vo; they build even if a row proof fails)
     model = None
-    try:
-        model = model_trees(ctx, apps)
-    except RuntimeError as e:
-        ctx.notes.append(f"model tree evaluation failed: {str(e)[-600:]}")
-    # ---- which applications go to the real compiler
+    if tr_err is None:
+        try:
+            model = model_trees(ctx, apps)
+        except RuntimeError as e:
+            ctx.notes.append(f"model tree evaluation failed: {str(e)[-600:]}")
+    # ---- which applications go to the real compiler: the builtin-function forms (every ordered
+    # pair of argument types, accepted or not) are always all included
     if ctx.quick:
-        core = [a for a in apps if a["params"][0] == a["params"][-1] or a["id"].split(":")[0] in ("Sub", "Lt", "FloorDiv", "conv")]
+        core = [a for a in apps if a["params"][0] == a["params"][-1] or a["id"].split(":")[0] in
+                ("Sub", "Lt", "FloorDiv", "conv", "pow", "divmod", "abs", "round", "not")
+                or any(k.get("key", "").startswith(a["id"] + ":") for k in ctx.known)]
         rest = [a for a in apps if a not in core]
         chosen = core + r.sample(rest, min(40, len(rest)))
     else:
@@ -393,11 +411,9 @@ def run(ctx):
     payload = []
     for a in chosen:
         mt = model.get(a["id"]) if model else None
-        ret = None
+        ret = "auto"      # no result type known (model rejects / no model): probe; "if accepted, the value must be Python's"
         if mt and mt != "REJECTED":
-            ret = mt.split(" : ")[1].replace("tuple[", "tuple[").replace(",", ", ")
-        elif not model:
-            ret = None
+            ret = mt.split(" : ")[1].replace(",", ", ")
         payload.append({"id": a["id"], "params": a["params"], "ret": ret, "expr": a["expr"]})
     impl = json.loads(ctx.impl("impl_ops.py", payload, timeout=1500))
     mismatches, compared, tree_compared = 0, 0, 0
@@ -443,13 +459,14 @@ def run(ctx):
         diffs = search(a["id"], a["params"], tree)
         evaluations += 1
         for xs, exp, got in diffs:
-            findings.append((a, xs, exp, got))
+            findings.append((a, xs, exp, got, tree))
     new_viol = 0
+    viol_apps = set()
     seen_known = set()
-    for a, xs, exp, got in findings:
+    for a, xs, exp, got, etree in findings:
         key = f"{a['id']}:{':'.join(keystr(x) for x in xs)}"
         detail = {"application": a["expr"], "operand_types": a["params"], "operands": [str(x) for x in xs],
-                  "python_result_mod_2^64": str(exp), "value_under_emitted_hugr_ops": str(got),
+                  "python_result_mod_2^64": str(exp), "value_under_emitted_hugr_ops": str(got), "emitted_op_tree": etree,
                   "replay": f"@guppy def f({', '.join(f'a{j}: {t}' for j, t in enumerate(a['params']))}): return {a['expr']}  -- compile with /repo, run the emitted op on the operands"}
         if ctx.is_known(key):
             ctx.report(key, "counterexample", "known", detail)
@@ -458,16 +475,23 @@ def run(ctx):
             continue      # inside a carved-out / documented region; represented by its listed witness
         else:
             new_viol += 1
-            if new_viol <= 3:
+            if a["id"] not in viol_apps and len(viol_apps) < 6:      # one replay per application, at most 6
+                viol_apps.add(a["id"])
                 ctx.report(key, "counterexample", "operator result differs from Python", detail)
-    if not info["ok"] and new_viol == 0 and mismatches == 0:
+    if tr_err is not None:
+        if new_viol == 0:
+            ctx.report(f"translator:{tr_err}", "proof-broken", "translator", {"error": tr_err, "searched_applications": searched},
+                       found_input=False)
+        else:
+            ctx.notes.append(f"translator failed closed: {tr_err}")
+    elif not info["ok"] and new_viol == 0 and mismatches == 0:
         ctx.report("proof-broken:" + str(info["failed"]), "proof-broken", str(info["failed"]),
                    {"coq_error": vlib.CoqResult(False, info["log"]).error_excerpt(), "searched_applications": searched},
                    found_input=False)
     # ---- float part: Coq's Python-side float spec vs CPython; assumptions of PropsFloat.v
     fs_n, fs_bad, fs_kinds, fs_samples = 0, 0, {}, []
     fa_names, fa_bad = [], []
-    if (vlib.COQ / "C04" / "Float64.vo").exists():
+    if tr_err is None and (vlib.COQ / "C04" / "Float64.vo").exists():
         try:
             fs_n, fs_bad, fs_kinds, fs_samples = spec_validation(ctx, 1800 if ctx.quick else 27000)
         except RuntimeError as e:
@@ -487,7 +511,14 @@ def run(ctx):
         ctx.notes.append(f"could not read hugr int.json: {e}")
     if drift:
         ctx.notes.append(f"HUGR op description changed for {drift}: Int64.v must be re-read against the new text")
-    accepted = sum(1 for a in apps if model and model.get(a["id"]) != "REJECTED")
+    forms = {}
+    for a in chosen:
+        p0 = a["id"].split(":")
+        form = f"{p0[1]}()" if p0[0] == "conv" else (p0[0] + "()" if p0[0] in ("pow", "divmod", "abs", "round") else p0[0])
+        st = impl[a["id"]]["status"]
+        d = forms.setdefault(form, {"accepted": 0, "rejected": 0, "crash": 0})
+        d["accepted" if st == "ok" else ("rejected" if st == "rejected" else "crash")] += 1
+    accepted = sum(1 for a in apps if model and model.get(a["id"]) != "REJECTED") if model else sum(d["accepted"] for d in forms.values())
     cov = proof_coverage(
         info, "make C04/Props.vo && coqc C04/Props.v (Print Assumptions)",
         ["Coq 8.16.1 kernel incl. vm_compute",
@@ -502,7 +533,7 @@ def run(ctx):
         applications_total=len(apps), applications_compiled=len(chosen), accepted_by_model=accepted,
         boundary_operands=BOUND if False else {k: [str(x) for x in v] for k, v in BOUND.items()},
         differences_found=len(findings), differences_outside_known_regions=new_viol, known_witnesses_reproduced=sorted(seen_known),
-        hugr_description_drift=drift,
+        hugr_description_drift=drift, accepted_rejected_by_compiler_per_form=forms, translator_error=tr_err,
         float_spec_cases_vs_cpython=fs_n, float_spec_disagreements=fs_bad, float_spec_case_kinds=fs_kinds,
         float_spec_samples=fs_samples, propsfloat_assumptions_kernel_primitives=fa_names,
         samples=[{"application": a["id"], "model": (model or {}).get(a["id"]), "compiler": impl[a["id"]].get("tree")} for a in chosen[:3]],
